@@ -106,6 +106,16 @@ func (c *collection) deleteWithFilter(
 			DocID:             docID,
 		}
 
+		// The entries of the secondary indexes must go with the document.
+		parsedDocID, err := client.NewDocIDFromString(docID)
+		if err != nil {
+			return nil, err
+		}
+		err = c.deleteIndexedDocWithID(ctx, parsedDocID)
+		if err != nil {
+			return nil, err
+		}
+
 		// Delete the document that is associated with this DS key we got from the filter.
 		err = c.applyDelete(ctx, primaryKey)
 		if err != nil {
